@@ -111,6 +111,11 @@ def gen_cases(rng, tier):
                 yield ctlprop.to_json_case(v)
 
 
+    # the same during authentication: sessions that start at connectionMade
+    for _ in range(120 if tier == 'quick' else 3000):
+        yield ctlprop.to_json_case(ctl.normalise_case(ctl.gen_auth_loss(rng)))
+
+
 def shrink(result, drv):
     return ctlprop.shrink_ops(result, drv, run_cases)
 
